@@ -30,13 +30,14 @@ def handlePuzCastleWall : Sexp → Option Sexp
     let h ← h.toNat?; let w ← w.toNat?
     let a ← cwTable? cwArrow? a
     let i ← cwTable? cwInside? i
-    some (CL.puzProgS (program { height := h, width := w, arrow := a, inside := i }))
+    -- the module before the repair of the line-board defect (see `insideCs'`)
+    some (CL.puzProgS (programWith false { height := h, width := w, arrow := a, inside := i } false))
   | .list [.atom "puz_castle_wall", h, w, a, i, .atom "fixed"] => do
-    -- the module after the proposed repair of the line-board defect (see `insideCs'`)
+    -- the module as it stands
     let h ← h.toNat?; let w ← w.toNat?
     let a ← cwTable? cwArrow? a
     let i ← cwTable? cwInside? i
-    some (CL.puzProgS (programWith false { height := h, width := w, arrow := a, inside := i } true))
+    some (CL.puzProgS (program { height := h, width := w, arrow := a, inside := i }))
   | _ => none
 
 end Cspuz.Drv
